@@ -19,7 +19,8 @@ from .tlc import MachineryError, read_ndjson, run_tlc
 
 
 class BodyError(Exception):
-    pass
+    def __bool__(self):      # an exception is one whatever its truth value (an error that is an empty collection of problems)
+        return False
 
 
 class DecoSys:
